@@ -635,6 +635,15 @@ pub fn explore(tier: Tier) -> (Acc, Value, u64, u64) {
     for extra in ["pkg:%74/n", "pkg:%54/n@1", "pkg:t%2Ex/n", "pkg:t%2ex/ns/n?k=v", "pkg:%21/n", "pkg:t/n?checksum=B:FF,a:0A", "pkg:t/n?checksum=zz", "pkg:t/n?checksum=a:00", "pkg:t/n?checksum=b:00&k=v", "pkg:t/n?filename=a&file_name=b", "pkg:t/n?repositoryid=7&repository_url=u&repo=x", "pkg:t/n?file_name=b&filename=a&file=c&files=d", "pkg:t/n?k=v&K2=w#a/../b", "pkg:t/ns/n@1?k=&l=x", "pkg:t/%80", "pkg:t/n?k", "pkg:!/n", "pkg:t", "t/n", "pkg:t/n@%zz", "pkg:t/a%2Fb/n"] {
         inputs.push(extra.to_owned());
     }
+    // every ASCII character (control characters included) and a few others inside and as the type:
+    // the conversion must never see a type substring that is not syntactically valid
+    for c in (0u32..0x180).filter_map(char::from_u32).chain(['\u{212A}', '\u{FF54}', '\u{1F600}']) {
+        if matches!(c, '/' | '?' | '#' | '@') {
+            continue;
+        }
+        inputs.push(format!("pkg:t{c}x/n"));
+        inputs.push(format!("pkg:{c}/n@1"));
+    }
     let binputs = builder_inputs();
     let states = std::sync::Mutex::new(BTreeSet::<u64>::new());
     let np = progs.len();
